@@ -105,6 +105,29 @@ PROPS["C20"] = {
     "assumptions": ["ids are non-negative"],
 }
 
+PROPS["C12"] = {
+    "props": ["OsmVerif.Props.C12"],
+    "gens": ["Update"],
+    "required_theorems": [],
+    "technique": "Lean 4 theorems (uniqueness of the key-sorted permutation; order independence of the per-child fold) about a hand-written executable model of core.Compute with the sort keys regenerated from update.go; tied by a differential line protocol and by repeating the real computation on deep copies",
+    "level_text": "TODO",
+    "level_note": "TODO",
+    "design_ref": "DESIGN.md §5 C11/C12",
+    "trusted_base": ["model Model/Annotate.lean is hand-written; tie = differential stream through annotate.Ways / annotate.Relations", "Go's sort.Sort returns some permutation sorted w.r.t. Less"],
+    "assumptions": ["child versions within one history are distinct"],
+}
+PROPS["C11"] = {
+    "props": ["OsmVerif.Props.C11"],
+    "gens": ["Update"],
+    "required_theorems": [],
+    "technique": "Lean 4 theorems about a hand-written executable model of the annotation core (FindVisible, nextVersionIndex, Compute) in the commit-time regime; tied by a differential line protocol and a ground-truth time-travel oracle on simulated edit timelines",
+    "level_text": "TODO",
+    "level_note": "TODO",
+    "design_ref": "DESIGN.md §5 C11/C12",
+    "trusted_base": ["model Model/Annotate.lean is hand-written; tie = differential stream through annotate.Ways / annotate.Relations"],
+    "assumptions": ["commit-time regime for the unconditional statements"],
+}
+
 NOT_APPLICABLE = {pid: "check not built yet in this session (planned, see DESIGN.md §9); no claim is made" for pid in
                   ["C%02d" % i for i in range(1, 21)] if pid not in PROPS}
 
